@@ -50,6 +50,12 @@ func (c rtCase) cfgJSON() json.RawMessage {
 	return b
 }
 
+// cfgFull: every field present (trace specifications access them without guards)
+func (c rtCase) cfgFull() json.RawMessage {
+	return json.RawMessage(fmt.Sprintf(`{"api":"%s","w":%d,"h":%d,"c":%d,"p":%d,"signed":%t,"near":%d,"pred":%d,"q":%d,"levels":%d,"cbw":%d,"cbh":%d,"prog":%d,"layers":%d,"mct":%t,"tw":%d,"th":%d,"lossless":%t,"ht":%t,"cls":"%s"}`,
+		c.API, c.W, c.H, c.C, c.P, c.Signed, c.Near, c.Pred, c.Quality, c.Levels, c.CBW, c.CBH, c.Prog, max(1, c.Layers), c.MCT, c.TileW, c.TileH, c.Lossless, c.HT, c.Cls))
+}
+
 type rtOpts struct {
 	logStream bool // include the encoded bytes in the trace
 	logSrc    bool
